@@ -1,7 +1,7 @@
 #!/venv/bin/python
 """Confirm a seeded change and run a check against it.
 
-usage: eval_seeded.py <src-dir with patch.diff, demo.py> <PROP> [--keep-as ID] [--scale S] [--skip-tests]
+usage: eval_seeded.py <src-dir with patch.diff, demo.py> <PROP> [--keep-as ID] [--scale S] [--tier quick|thorough] [--skip-tests]
 Uses a scratch git worktree of /repo under /tmp (removed afterwards); /repo itself is not touched.
 """
 import json, os, shutil, subprocess, sys, time
@@ -10,6 +10,7 @@ src, prop = sys.argv[1], sys.argv[2]
 keep = sys.argv[sys.argv.index("--keep-as") + 1] if "--keep-as" in sys.argv else None
 scale = sys.argv[sys.argv.index("--scale") + 1] if "--scale" in sys.argv else "1"
 skip_tests = "--skip-tests" in sys.argv
+tier = sys.argv[sys.argv.index("--tier") + 1] if "--tier" in sys.argv else "quick"
 wt = "/tmp/wt-eval-%d" % os.getpid()
 PY = "/venv/bin/python"
 
@@ -37,7 +38,7 @@ try:
             rep["tests_tail"] = outt.strip().splitlines()[-1] if outt.strip() else ""
         env = dict(os.environ, VERIF_REPO=wt, VERIF_SCALE=scale)
         t0 = time.time()
-        rcc, outc = sh("%s/check %s --tier quick --no-evidence --no-selftest" % (ROOT, prop), cwd=ROOT, env=env, timeout=3000)
+        rcc, outc = sh("%s/check %s --tier %s --no-evidence --no-selftest" % (ROOT, prop, tier), cwd=ROOT, env=env, timeout=3000)
         rep["check_rc"] = rcc
         rep["check_wall_s"] = round(time.time() - t0, 1)
         rep["check_lines"] = [l[:200] for l in outc.splitlines() if l.startswith(("VIOLATION", "SUMMARY", "HARNESS"))][:6]
